@@ -440,3 +440,68 @@ def check_C16():
            "exhaustive": True}
     finish("C16", "fault_enumeration", cov, viols, inconclusive=rep.get("inconclusive") or None,
            assumptions=["faults are injected at the io.WriterAt / io.Writer boundary; blockstore.ReadWrite shares Put's write path (LdWrite through OffsetWriteSeeker) and is covered through it"])
+
+
+def check_C08():
+    import re
+    vh = build_harness()
+    model = run_tlc("MCConc", "Conc_fixed.cfg", timeout=900)
+    tlc_must_pass(model, "Conc.tla (lock discipline: NoConflict, MutexOK, Linearizable, DedupeOnce, Termination)")
+    orig = run_tlc("MCConc", "Conc_original.cfg", timeout=900)   # the pre-fix AllKeysChan: documents the design-level counterexample
+    vr = build_harness(race=True, name="vhrace")
+    viols, inconc = [], []
+    hist1 = os.path.join(scratch(), "cc_hist.ndjson")
+    rep_path = os.path.join(scratch(), "cc_rep.json")
+    rounds = 25 if tier() == "quick" else 600
+    env = dict(vlib.GOENV, GORACE="halt_on_error=1 exitcode=66")
+    try:
+        p = subprocess.run([vr, "conc-stress", rep_path, hist1, "seed=%d" % seed(), "rounds=%d" % rounds], env=env, timeout=3000,
+                           stdout=subprocess.PIPE, stderr=subprocess.STDOUT, text=True)
+    except subprocess.TimeoutExpired:
+        raise Inconclusive("conc-stress timed out")
+    if p.returncode == 66:
+        m = re.search(r"WARNING: DATA RACE.*?(?=\n==================)", p.stdout, re.S)
+        txt = (m.group(0) if m else p.stdout)[:2500]
+        fn = re.findall(r"\n  ([\w./()*-]+)\(\)\n", txt)
+        viols.append({"class": "conc/data-race/" + (fn[0].split("/")[-1] if fn else "unknown"), "detail": txt, "replay": {"family": "conc", "seed": seed(), "rounds": rounds}})
+        srep = {"evaluations": 0, "distinct_nontrivial": 0, "counters": {}, "samples": [], "violations": []}
+    elif p.returncode in (0, 1) and os.path.exists(rep_path):
+        srep = vlib.read_report(rep_path)
+        viols += srep["violations"] or []
+    else:
+        raise Inconclusive("conc-stress failed rc=%d\n%s" % (p.returncode, p.stdout[-2000:]))
+    hist2 = os.path.join(scratch(), "cx_hist.ndjson")
+    rc, xrep = harness_run(vh, ["conc-explore", "@REPORT", hist2, "max=%d" % (60 if tier() == "quick" else 500)], timeout=3000)
+    viols += xrep["violations"] or []
+    nev = 0
+    for hp in (hist1, hist2):
+        if not os.path.exists(hp) or os.path.getsize(hp) == 0:
+            continue
+        val = run_tlc("ConcTrace", "ConcTrace.cfg", workers=1, timeout=1800, env={"VERIF_HIST": hp})
+        txt = open(val["out"], errors="replace").read()
+        n = sum(1 for _ in open(hp))
+        m = re.search(r'"VALIDATED", (\d+)', txt)
+        stuck = re.search(r'<<"STUCK", (\d+)>>', txt)
+        if stuck or not m or int(m.group(1)) != n:
+            inconc.append("ConcTrace did not consume the history %s (%s)" % (os.path.basename(hp), stuck.group(0) if stuck else val["tail"][-300:]))
+            continue
+        nev += n
+        rej = [int(x) for x in re.findall(r'<<"REJECT", (\d+)>>', txt)]
+        if rej:
+            lines = open(hp).read().splitlines()
+            for r in rej[:5]:
+                e = json.loads(lines[r - 1])
+                ctx = [json.loads(x) for x in lines[max(0, r - 12):r]]
+                viols.append({"class": "conc/not-linearizable/%s" % e["op"],
+                              "detail": "history event %d: %s(%s) returned %s %s, which the sequential model at its linearization point does not give" % (r, e["op"], e["key"], e["res"], e["set"]),
+                              "replay": {"family": "conc-history", "event": e, "preceding": ctx}})
+    cov = {"states": model["distinct"], "transitions": model["states"], "traces_validated_against_impl": srep["evaluations"] + xrep["evaluations"],
+           "evaluations": srep["evaluations"] + xrep["evaluations"], "distinct_nontrivial": srep["distinct_nontrivial"] + xrep["distinct_nontrivial"],
+           "history_events_validated_by_tlc": nev,
+           "rule": "(1) race-detector build: %d free-running rounds x {blockstore.ReadWrite, storage.StorageCar, DeferredCarWriter}, 2..16 goroutines, random mixes of Put/Has/Get/AllKeysChan/Finalize on 2..7 shared "
+                   "keys, watchdog for deadlock, final file decoded (every acknowledged block exactly once); (2) gate-driven depth-first exploration of every order in which the goroutines of 6 small "
+                   "programs pass the lock gates (pre/locked/unlocking) x 3 stores; (3) all recorded histories (invocation, linearization point taken under the lock by the hook, response) validated by "
+                   "TLC against ConcTrace.tla; (4) Conc.tla model-checked (original AllKeysChan variant gives the NoConflict counterexample: %s)" % (rounds, orig.get("violated")),
+           "samples": (srep["samples"] or [])[:3] + (xrep["samples"] or [])[:3] or [{}], "counters": {"stress": srep["counters"], "explore": xrep["counters"]}}
+    finish("C08", "model_checking", cov, viols, inconclusive=inconc or None,
+           assumptions=["the Go race detector decides 'no data race' on the executions it sees", "gates add happens-before edges, so race detection runs ungated"])
